@@ -25,7 +25,7 @@ def run(tier):
     for i in range(n):
         s = seed * 1000003 + i
         sc = gen.gen_lifecycle(s)
-        modes = ["dispatch"] if sc.meta.get("style") == "main" else ["loop", "dispatch"]
+        modes = ["dispatch"] if sc.meta.get("style") in ("main", "main_nokick") else ["loop", "dispatch"]
         for m in modes:
             c = cc.Case()
             c.sc, c.profile, c.mode, c.seed = sc, "lifecycle", m, s
